@@ -38,6 +38,14 @@ CHECKS["C07"] = dict(
     design="5/C07",
 )
 
+CHECKS["C05"] = dict(
+    engine="E1-config-lattice",
+    technique="complete-basis (full matrix) probing of every forward/backward routine pair of the real C/Python code over enumerated layouts, offsets/strides and thread counts",
+    text="For every operator pair of the nonlocal pipeline (angular grid <-> spherical harmonics, radial grid <-> orbital basis for input and output bases, convolution multiply for j/i/ij/k collections, spline projections incl. the l=1 fills, grid interpolation incl. l+1 terms for both interpolator back ends, coefficient transforms for both plans and both coefficient orders, the composed forward/backward convolution, SDMX orbital contraction and shell-to-alpha l=1 contraction) and every enumerated layout, the forward routine is applied to every unit vector of its domain and the backward routine to every unit vector of its codomain; the two full matrices must be transposes entrywise, A(0)=0, additivity, and nothing outside the addressed offset/stride block is written.",
+    note="Layouts bounded (natm<=3, lmax<=3, <=8 shells, nalpha<=6); tolerance 64 eps ||A|| sqrt(dim); thread counts 1-3 under libgomp (schedules are C10).",
+    design="5/C05",
+)
+
 NOT_YET = {}
 
 
